@@ -576,8 +576,10 @@ func replayFiles(w *ev.W, files map[string]string, bound int) {
 		vmap.Chooser = nil
 		if err != nil {
 			outs["ERROR"] = true
+			w.Note(fmt.Sprintf("replay outcome: ERROR %v", err))
 			return
 		}
+		w.Note("replay outcome: OK")
 		outs["OK\n"+moddump.Dump(m)] = true
 	}
 	ex.Run()
